@@ -44,6 +44,8 @@ def sends_from_log(spec_by, log_delta):
             continue
         for j, s in enumerate(lst or []):
             data = {'uid': s.get('uid_base', 0) + v * 10 + j}
+            if s.get('nouid'):
+                data = {}
             if s.get('delay') is not None:
                 data['delay'] = s['delay']
             data.update(s.get('params') or {})
@@ -97,10 +99,11 @@ class Drive:
         elif mode == 'multi':
             # queue(a, b): two events in one call, the second one as an Event instance
             kw2 = dict(kw)
-            kw2['uid'] = str(uid) + 'b'
+            if uid is not None:
+                kw2['uid'] = str(uid) + 'b'
             self.interp.queue(Event(name, **kw), Event(name + '_2', **kw2))
             self.qm.push('ext', self.interp.time + (delay or 0), uid, name)
-            self.qm.push('ext', self.interp.time + (delay or 0), kw2['uid'], name + '_2')
+            self.qm.push('ext', self.interp.time + (delay or 0), kw2.get('uid'), name + '_2')
             return
         else:
             self.interp.queue(name, **kw)
